@@ -452,6 +452,7 @@ def explore_case(
                 executed.add("%s:%s" % (fn.split("/numpoly/", 1)[1], frame.f_code.co_name))
 
     valuations = [{a: Fraction(frng.choice([-3, -2, -1, 0, 0, 1, 1, 2, 3, 5])) for a in atoms} for _ in range(2)] + witnesses
+    native_hx: List[str] = []
     n_wide = len(valuations)
     valuations = valuations + [valuations[0]]  # once more as int32 (a coefficient type outside the compiled kernels)
     for _k, vals in enumerate(valuations):
@@ -467,6 +468,7 @@ def explore_case(
         fidelity += 1
         for r in rep:
             if r.kind == "harness-exception":
+                native_hx.append(r.detail[:160])  # the oracle / driver itself failed in this native run: counted, never a verdict
                 continue
             sig = r.signature()
             if seen_sig.get(sig):
@@ -518,6 +520,8 @@ def explore_case(
     return {
         "case": case,
         "fidelity_runs": fidelity,
+        "native_harness_exceptions": native_hx[:3],
+        "n_native_harness_exceptions": len(native_hx),
         "functions_executed": sorted(executed),
         "assumptions_used": sorted(ENGINE.assumptions_used),
         "paths": summary["paths"],
@@ -1058,6 +1062,7 @@ def finish(
         "counterexamples_not_reproduced": int(unconfirmed + not_reproduced),
         "known_findings_hit": known_hits,
         "harness_errors": [{"case": r["case"].get("id", r["case"].get("op")), "error": r["harness_error"]} for r in harness_errors][:10],
+        "native_runs_with_driver_exception": int(sum(r.get("n_native_harness_exceptions", 0) for r in reports)),
         "exhaustive": False,
     }
     if extra_coverage:
@@ -1093,6 +1098,10 @@ def finish(
             time.time() - t0,
         )
     )
+    nhx = sum(r.get("n_native_harness_exceptions", 0) for r in reports)
+    if nhx:
+        first = next((r["native_harness_exceptions"][0] for r in reports if r.get("native_harness_exceptions")), "")
+        print("NOTE: %d native run(s) ended in an exception of the driver/oracle itself (not a verdict; first: %s)" % (nhx, first))
     if harness_errors:
         for r in harness_errors[:3]:
             print("HARNESS-ERROR case=%s: %s\n%s" % (r["case"].get("id", r["case"].get("op")), r["harness_error"], r.get("traceback", "")), file=sys.stderr)
